@@ -68,35 +68,55 @@ def r09_registry(ctx):
     ams = ctx.fn(ctx.p.func(META, 'add_meta_spec'))
     wa = ctx.where(ams)
     ns = ctx.f.module_namespace(m)
-    specs = ns.get('_META_SPECS') if ns is not None else None
-    bytype = ns.get('_META_SPEC_BY_TYPE') if ns is not None else None
-    if isinstance(specs, ADict):
-        specs = specs.d
-    if isinstance(bytype, ADict):
-        bytype = bytype.d
-    if not isinstance(specs, dict) or not isinstance(bytype, dict):
-        ctx.fail('R09.5', 'registry', wa, f'running the module body of {m.relpath} does not yield the registries '
-                 f'(_META_SPECS: {type(specs).__name__}, _META_SPEC_BY_TYPE: {type(bytype).__name__})', construct=f'{ams.qname}::registries')
+    # the registries are found by what they hold, not by their names: every dictionary of the module - a global, or an attribute
+    # of a module-level object - whose values are spec objects
+    spec_classes_ = set(id(c) for c in reg.values())
+
+    def as_dict(v):
+        if isinstance(v, ADict):
+            return v.d
+        return v if isinstance(v, dict) else None
+
+    def is_registry(d):
+        return bool(d) and all(isinstance(x, AObj) and x.cls is not None and id(x.cls) in spec_classes_ for x in d.values())
+    tables = []
+    for gname, gv in (ns or {}).items():
+        cands = [(gname, gv)]
+        if isinstance(gv, AObj):
+            cands += [(f'{gname}.{an}', av) for an, av in gv.attrs.items()]
+        for label, v in cands:
+            d = as_dict(v)
+            if d is not None and is_registry(d) and not any(d is t for _, t in tables):
+                tables.append((label, d))
+    if not tables:
+        ctx.fail('R09.5', 'registry', wa, f'running the module body of {m.relpath} leaves no dictionary of spec objects behind: the registries '
+                 'add_meta_spec fills cannot be found', construct=f'{ams.qname}::registries')
         return
     want_names = set(reg)
-    ctx.require(set(bytype) == want_names, 'R09.5', 'registry.names', wa,
-                f'_META_SPEC_BY_TYPE holds {sorted(map(str, bytype))}; the MetaSpec_* classes are {sorted(want_names)}', construct=f'{ams.qname}::names')
+    names_found = {k for _, d in tables for k in d if isinstance(k, str)}
+    ctx.require(names_found == want_names, 'R09.5', 'registry.names', wa,
+                f'the registries {[l for l, _ in tables]} know the type names {sorted(names_found)}; the MetaSpec_* classes are {sorted(want_names)}',
+                construct=f'{ams.qname}::names')
+    tbs = set()
     for name, c in sorted(reg.items()):
-        sp_ = bytype.get(name)
         tb = ctx.f.try_eval(ctx.p.class_attr(c, 'type_byte'), {}, m) if ctx.p.class_attr(c, 'type_byte') is not None else None
+        tbs.add(tb)
         attrs_ = ctx.f.try_eval(ctx.p.class_attr(c, 'attributes'), {}, m) if ctx.p.class_attr(c, 'attributes') is not None else []
-        ok = isinstance(sp_, AObj) and sp_.cls == c and sp_.attrs.get('type') == name and specs.get(name) is sp_ and specs.get(tb) is sp_
+        by_name = [d[name] for _, d in tables if name in d]
+        by_byte = [d[tb] for _, d in tables if tb in d]
+        sp_ = by_name[0] if by_name else None
+        ok = isinstance(sp_, AObj) and sp_.cls == c and sp_.attrs.get('type') == name and bool(by_byte) and all(x is sp_ for x in by_name + by_byte)
         sa = sp_.attrs.get('settable_attributes') if isinstance(sp_, AObj) else None
         try:
             sa_ok = set(sa) == set(attrs_ or []) | {'time'}
         except TypeError:
             sa_ok = False
         ctx.require(ok and sa_ok, 'R09.5', f'registry({name})', wa,
-                    f'after import: by type {sp_!r}, by name {specs.get(name)!r}, by type byte {tb!r} {specs.get(tb)!r}, settable {sa!r}; '
-                    f'expected one MetaSpec_{name} object under all three keys with type {name!r} and settable attributes {sorted(set(attrs_ or []) | {"time"})}',
+                    f'after import: by name {by_name!r}, by type byte {tb!r} {by_byte!r}, settable {sa!r}; '
+                    f'expected one MetaSpec_{name} object under its name and its type byte with type {name!r} and settable attributes {sorted(set(attrs_ or []) | {"time"})}',
                     construct=f'{ams.qname}::registration')
-    stray = [k for k in specs if k not in want_names and k not in {ctx.f.try_eval(ctx.p.class_attr(c, 'type_byte'), {}, m) for c in reg.values() if ctx.p.class_attr(c, 'type_byte') is not None}]
-    ctx.require(not stray, 'R09.5', 'registry.stray', wa, f'_META_SPECS has entries that belong to no MetaSpec_* class: {stray}', construct=f'{ams.qname}::stray')
+    stray = [k for _, d in tables for k in d if k not in want_names and k not in tbs]
+    ctx.require(not stray, 'R09.5', 'registry.stray', wa, f'the registries have entries that belong to no MetaSpec_* class: {stray}', construct=f'{ams.qname}::stray')
 
 
 def _check_fn(ctx, c):
@@ -652,6 +672,40 @@ def r09_default_charset(ctx):
     ctx.borrow(c17.r17_2, 'R09.8')
 
 
+def r09_byte_payloads(ctx):
+    """The payload of sequencer_specific and of unknown meta events is made of bytes, 0..255 - not of MIDI data bytes: a
+    manufacturer's data with the high bit set is accepted by the constructor, by assignment and by the decoder, and comes back as
+    it was.  (That items outside 0..255 are not refused is the known finding D6/D7.)"""
+    from ..fold import ClassRef
+    ai = smf.make_interp(ctx)
+    ai.summaries.pop('mido/messages/checks.py::check_data', None)        # (if a spec borrows the 7-bit check it is the real one)
+    cls = ctx.p.cls(META, 'MetaMessage')
+    ucls = ctx.p.cls(META, 'UnknownMetaMessage')
+    bm = ctx.fn(ctx.p.func(META, 'build_meta_message'))
+    w = ctx.where(bm)
+    n = 0
+    for payload in ((0x80,), (0, 0x7f, 0x80, 0xff), (0xff,) * 3):
+        n += 1
+
+        def thunk():
+            m1 = ai.apply(ClassRef(cls), ['sequencer_specific'], {'data': AList(list(payload), 'tuple')}, None)
+            m2 = ai.call_function(bm, [0x7f, AList(list(payload), 'list'), 0], {})
+            m3 = ai.call_function(bm, [0x60, AList(list(payload), 'list'), 0], {})
+            b1 = ai.call_function(ctx.p.lookup_method(cls, 'bytes')[1], [m1], {})
+            return [list(ai.iterate(x.attrs.get('data'), None)) if isinstance(x, AObj) else x for x in (m1, m2, m3)], list(ai.iterate(b1, None))
+        outs = ai.explore(thunk)
+        ok = len(outs) == 1 and outs[0].kind == 'return'
+        if ok:
+            datas, enc = outs[0].value
+            ok = all(d == list(payload) for d in datas) and enc[3:] == list(payload)
+        ctx.require(ok, 'R09.10', f'payload {list(payload)}', w,
+                    f'a sequencer_specific / unknown meta payload {list(payload)} given to the constructor and to the decoder, then encoded: {str(outs)[:300]}; '
+                    'expected the same bytes everywhere', construct=f'{bm.qname}::byte-payload')
+    ctx.floor('R09.10', n, 3)
+    for q in ai.inlined:
+        ctx.functions.add(q)
+
+
 def r09_after_refusal(ctx):
     """The domains are enforced on every message, whatever happened before in the process: after a decode that was refused (a key
     signature that does not exist, a payload cut short), after a constructor call that was refused, and after any number of good
@@ -696,5 +750,5 @@ def r09_after_refusal(ctx):
         ctx.functions.add(q)
 
 
-RULES = [('R09.9', r09_after_refusal), ('R09.8', r09_default_charset), ('R09-vlq', r09_vlq), ('R09.7', r09_codec), ('R09-registry', r09_registry), ('R09.3', r09_3), ('R09.1', r09_1), ('R09-tables', r09_tables), ('R09.2', r09_2),
+RULES = [('R09.10', r09_byte_payloads), ('R09.9', r09_after_refusal), ('R09.8', r09_default_charset), ('R09-vlq', r09_vlq), ('R09.7', r09_codec), ('R09-registry', r09_registry), ('R09.3', r09_3), ('R09.1', r09_1), ('R09-tables', r09_tables), ('R09.2', r09_2),
          ('R09.4', r09_4), ('R09.5', r09_5), ('R09.6', r09_6)]
